@@ -45,7 +45,9 @@ class FakeSocket:
         self.gaps = {int(k): float(v) for k, v in (gaps or {}).items()}
         self.not_before = 0.0
         self.stream = bytes(stream)
-        self.cuts = sorted(set(c for c in cuts if 0 < c < len(self.stream)))
+        # (a pause of the peer is a fragment boundary: gap positions are cuts as well)
+        self.cuts = sorted(set(c for c in list(cuts) + list(self.gaps) if 0 < c < len(self.stream)))
+        self.log_wr = True
         self.limit = len(self.stream) if limit is None else limit
         self.pos = 0
         self.gate = False
@@ -191,7 +193,7 @@ class FakeSocket:
         def fire():
             self.tx += data
             self.tx_by.append((me.name if me is not None else None, data))
-            if me is not None:       # (set-up code -- connect() -- is reported by the `connect` event)
+            if me is not None and self.log_wr:       # (set-up code -- connect() -- is reported by the `connect` event)
                 self.rec.ev.append({'e': 'wr', 's': self.rec.sender_id(me.name), 'b': [int(x) for x in data]})
             return len(data)
         return vthreading._do(vcore.Op('sock.send', self, lambda: True, fire))
@@ -445,11 +447,12 @@ def _pending(rec_thread):
 def run_router(sc):
     """CPXRouter thread + receiver threads under the virtual scheduler."""
     global REC
-    from cflib.cpx import CPXFunction, CPXRouter
+    from cflib.cpx import CPXFunction, CPXPacket, CPXRouter, CPXTarget
     from cflib.cpx.transports import SocketTransport
     rec = Recorder()
     rng = random.Random(sc['sched'])
     sock = FakeSocket(sc['stream'], sc['cuts'], rec, sc.get('limit'), sc.get('gaps'))
+    sock.log_wr = False      # router mode: requests of transaction-style receivers are not part of the history
     FAKE.next = sock
     REC = rec
     try:
@@ -458,18 +461,28 @@ def run_router(sc):
             router.start()
             rthreads = []
 
-            def receiver(f, timeout, pause=0.0):
+            def receiver(r, f, timeout, pause=0.0, tp=0.0):
+                # tp > 0: a transaction-style user of function f -- some of its calls are
+                # makeTransaction(request) (send, then wait for the next packet of f) instead of
+                # receivePacket(f); the function may have packets pending at that moment
                 fn = CPXFunction(f)
+                rr = random.Random(sc['sched'] * 31 + r)
+                first = True
                 while True:
                     try:
-                        router.receivePacket(fn, timeout)
+                        if tp and not first and rr.random() < tp:
+                            q = CPXPacket(function=fn, destination=CPXTarget.GAP8, data=bytearray([r]))
+                            router.makeTransaction(q)
+                        else:
+                            router.receivePacket(fn, timeout)
                     except vqueue.Empty:
                         if pause:                  # a receiver that does something else between polls
                             vtime.sleep(pause)
+                    first = False
 
             for ent in sc['rcv']:
                 (r, f, timeout) = ent[:3]
-                th = s.spawn(receiver, 'rcv%d' % r, (f, timeout) + tuple(ent[3:4]))
+                th = s.spawn(receiver, 'rcv%d' % r, (r, f, timeout) + tuple(ent[3:5]))
                 rec.names[th.name] = r
                 rthreads.append(th)
             ids = [ent[0] for ent in sc['rcv']]
@@ -487,7 +500,7 @@ def run_router(sc):
                 if any(q.qsize() for q in router._rxQueues.values()):
                     return False
                 return all(t.finished or _pending(t)[0] == 'queue.get' for t in rthreads)
-            res = s.run(until=quiet, horizon=s.now + 30.0)
+            res = s.run(until=quiet, horizon=s.now + 60.0)
             if any(len(ent) > 3 for ent in sc['rcv']):      # let pausing receivers come back and drain
                 res = s.run(until=quiet, horizon=s.now + 5.0)
             dead = [t['name'] for t in s.report() if t['status'] == 'dead']
@@ -656,7 +669,7 @@ def run_tcp(sc):
                     if not t.finished and _pending(t)[0] != 'queue.get':
                         return False
                 return True
-            res = s.run(until=quiet, horizon=s.now + 60.0)
+            res = s.run(until=quiet, horizon=s.now + 90.0)
             dead = [t['name'] for t in s.report() if t['status'] == 'dead']
             alive = not dead and not rrec.finished and not trec.finished
     finally:
@@ -822,6 +835,19 @@ class mutant:
                 data += packet.wireData
                 t._socket.send(data)
             self._set(tr.SocketTransport, 'writePacket', wp)
+        elif name == 'recv_timeout_2s':        # the transport leaves a 2 s timeout on its socket
+            orig_rd = IMPL['_readData']
+
+            def rd2(t, size):
+                t._socket.settimeout(2)
+                return orig_rd(t, size)
+            self._impl('_readData', rd2)
+        elif name == 'transaction_fresh_queue':    # makeTransaction starts with a fresh queue for the function
+            def mt(r, packet):
+                r._rxQueues[packet.function.value] = vqueue.Queue()
+                r.sendPacket(packet)
+                return r.receivePacket(packet.function)
+            self._set(cpx.CPXRouter, 'makeTransaction', mt)
         elif name == 'write_split':            # length prefix and wire data written with two calls
             import cflib.cpx.transports as tr
 
@@ -858,6 +884,7 @@ MUTANTS = {
     'queue_dropped_on_timeout': ('router', 'tcp'),
     'down_payload_shift': ('tcp',), 'down_drop_short': ('tcp',),
     'up_no_header': ('tcp',), 'up_len_plus4': ('tcp', 'loop'),
+    'recv_timeout_2s': ('router', 'tcp'), 'transaction_fresh_queue': ('router',),
     'write_split': ('tcp',), 'header_in_place': ('tcp',),
 }
 
@@ -1050,7 +1077,36 @@ def rand_gaps(rng, pk):
         pos += 4 + len(p[5])
         if rng.random() < 0.4:
             gaps[pos] = rng.choice((0.05, 0.15, 0.25, 0.35, 1.2))
+    # the peer (or the network) also stalls in the MIDDLE of a frame, for longer than any timeout a
+    # transport may plausibly have put on its socket: once 2.5 s, once 10 s per stream at most
+    pos = 0
+    long_ones = [2.5, 10.0]
+    rng.shuffle(long_ones)
+    for p in pk:
+        n = 4 + len(p[5])
+        if long_ones and rng.random() < 0.35:
+            gaps[pos + rng.randint(1, n - 1)] = long_ones.pop()
+        elif rng.random() < 0.15:
+            gaps[pos + rng.randint(1, n - 1)] = rng.choice((0.05, 0.3))
+        pos += n
     return gaps
+
+
+def fixed_jobs(rng):
+    """Two histories that are always part of the run: (a) a function that has packets pending while
+    its user alternates receivePacket and makeTransaction; (b) frames whose second part arrives
+    2.5 s / 10 s after the first."""
+    f = rng.choice([1, 2, 4, 5, 14, 15])
+    pk = [rand_packet(rng, n, [f]) for n in (1, 0, 3, 2, 1, 4, 2, 1)]
+    jobs = [{'kind': 'router', 'pkts': pk, 'cuts': [], 'rcv': [(1, f, 0.2, 0.3, 0.5)], 'sched': 5 + k,
+             'policy': 'router_first', 'long': True} for k in range(3)]
+    pk = [rand_packet(rng, 5, [f]) for _ in range(4)]
+    jobs.append({'kind': 'router', 'pkts': pk, 'cuts': [], 'rcv': [(1, f, None)], 'sched': 3, 'policy': 'random',
+                 'gaps': {12: 2.5, 19: 10.0, 30: 0.3}, 'long': True})
+    pk = [rand_packet(rng, 5, [FN_CRTP]) for _ in range(4)]
+    jobs.append({'kind': 'tcp', 'pkts': pk, 'cuts': [], 'rcv': [], 'drv': 'tcp', 'senders': [], 'sched': 3,
+                 'wait': -1, 'tx_early': False, 'gaps': {10: 10.0, 22: 2.5}, 'long': True})
+    return jobs
 
 
 def jobs_random(tier, rng):
@@ -1073,7 +1129,10 @@ def jobs_random(tier, rng):
         for r in range(1, rng.randint(1, 5) + 1):
             tmo = rng.choice((None, None, 0.2))
             # some polling receivers do something else for a while between two polls
-            rcv.append((r, rng.choice(fns), tmo) + ((rng.choice((0.1, 0.3)),) if tmo and rng.random() < 0.5 else ()))
+            ent = (r, rng.choice(fns), tmo) + ((rng.choice((0.1, 0.3)),) if tmo and rng.random() < 0.5 else ())
+            if rng.random() < 0.3:      # a transaction-style user of its function
+                ent = ent[:3] + (ent[3] if len(ent) > 3 else 0.0, rng.choice((0.3, 0.6)))
+            rcv.append(ent)
         jobs.append({'kind': 'router', 'pkts': pk, 'cuts': rand_cuts(rng, L), 'rcv': rcv, 'long': True,
                      'sched': rng.randrange(1 << 30), 'policy': ('random', 'router_first', 'router_last')[k % 3],
                      'gaps': rand_gaps(rng, pk) if k % 2 else {}})
@@ -1100,6 +1159,7 @@ def jobs_random(tier, rng):
                      'wait': rng.choice((-1, 0.05)), 'tx_early': rng.random() < 0.5, 'long': True,
                      'policy': ('random', 'router_first', 'router_last')[k % 3],
                      'gaps': rand_gaps(rng, pk) if k % 2 == 0 else {}})
+    jobs += fixed_jobs(rng)
     # the link used by several threads at once (downlink idle or a few packets): many schedules
     for k in range(2 * n if tier == 'quick' else n):
         pk = [rand_packet(rng, rng.randrange(1, 8), [FN_CRTP]) for _ in range(rng.randrange(3))]
@@ -1159,6 +1219,8 @@ def mutant_battery(tier, rng):
         gaps[pos] = 0.35
     bat['router'].append({'kind': 'router', 'pkts': pk, 'cuts': [], 'rcv': [(1, fns[0], 0.2, 0.4), (2, fns[1], 0.3, 0.25)],
                           'gaps': gaps, 'sched': 7, 'policy': 'router_first'})
+    for j in fixed_jobs(rng):
+        bat[j['kind']].append(j)
     pk = [rand_packet(rng, n, [FN_CRTP]) for n in (1, 2, 5, 1, 31)]
     pos, gaps = 0, {}
     for p in pk:
@@ -1342,7 +1404,7 @@ def main(tier, seed, replay=None):
                 'MC_Cpx_late.cfg', 'MC_Cpx_quick.cfg', 'MC_Cpx_tcp_quick.cfg', 'MC_Cpx_send_quick.cfg',
                 'MC_Cpx_send_thorough.cfg']
     bugs = ['single_recv', 'be_len', 'route_by_dst', 'no_version_check', 'swap_targets', 'lifo', 'tx_no_header',
-            'late_drop', 'split_write', 'inplace_header']
+            'late_drop', 'split_write', 'inplace_header', 'recv_timeout', 'trans_new_queue']
     if tier == 'quick':
         cfgs.remove('MC_Cpx_late.cfg')
     with ThreadPool(6) as tp:
